@@ -20,6 +20,9 @@ type (
 	DBFT    = dbft.DBFT[vt.H]
 )
 
+// PolicyRejected: proposals with these nonces fail the application's VerifyPrepareRequest.
+func PolicyRejected(nonce uint64) bool { return nonce >= 0xBAD0 && nonce <= 0xBAD3 }
+
 // VTimer is the injected virtual timer of one node.
 type VTimer struct {
 	n       *Node
@@ -187,8 +190,8 @@ type Node struct {
 	Requested   []vt.H // union of RequestTx arguments since the last proposal was stored
 	// Want is the application's own record of what the library asked for and was not yet handed
 	// (hash -> height/view of the request); the schedulers supply from it, never from the library's list
-	Want map[vt.H][2]uint32
-	Callbacks   int    // number of callback invocations so far
+	Want      map[vt.H][2]uint32
+	Callbacks int // number of callback invocations so far
 }
 
 func (n *Node) Now() time.Time { return n.W.Clock.Add(n.Offset) }
@@ -273,6 +276,16 @@ func (n *Node) newDBFT() {
 			}
 		}),
 		dbft.WithStopTxFlow[vt.H](func() { n.ev(EvStopTxFlow, nil, "") }),
+		// the application's own policy check of a proposal: nonces in the reserved range are rejected by every node
+		// (only fabricated proposals carry them, an honest primary's nonce comes from 64 random bits)
+		dbft.WithVerifyPrepareRequest[vt.H](func(p dbft.ConsensusPayload[vt.H]) error {
+			if PolicyRejected(p.GetPrepareRequest().Nonce()) {
+				n.ev(EvVerifyBlock, nil, "proposal rejected by policy")
+				w.Stat("proposal_rejected_by_policy")
+				return errors.New("vt: proposal rejected by policy")
+			}
+			return nil
+		}),
 		dbft.WithVerifyBlock[vt.H](func(b dbft.Block[vt.H]) bool {
 			ok := n.verifyTxs(b.Transactions())
 			n.ev(EvVerifyBlock, nil, fmt.Sprint(ok))
